@@ -107,6 +107,23 @@ def check_group(g):
                             whole = Bed6(["c"], [0], [len(t)], ["x"], [0], ["+"])
                             out.append(gs.extract_intervals(whole, stranded=True).tolist())
                             return out
+                        def through_intervals():
+                            # the same extraction through GenomicIntervals: as given, two sets joined, and the single base at each strand-aware start
+                            from bionumpy.genomic_data import GenomicSequence
+                            gs = GenomicSequence.from_dict({"c": t})
+                            gi = bnp.Genome.from_dict({"c": len(t)}).get_intervals(ivs, stranded=True)
+                            out = [gs[gi].tolist()]
+                            if len(ex) >= 2:
+                                out.append(gs[np.concatenate([gi[:1], gi[1:]])].tolist())
+                            out.append(gs[gi.get_location("start").get_windows(flank=0)].tolist())
+                            return out
+                        o = outcome(through_intervals)
+                        n += 1
+                        wanti = [[_up(w) for w in wv]] + ([[_up(w) for w in wv]] if len(ex) >= 2 else []) + [[_up(w[:1]) for w in wv]]
+                        if o[0] != "ok" or [[_up(x) for x in q] for q in o[1]] != wanti:
+                            bad.append({"what": "stranded extraction through GenomicIntervals (as given / joined / at the strand-aware start) differs from subsequence / reverse complement",
+                                        "tags": {"op": "extract-intervals", "encoding": ename}, "group": {"op": "extract-intervals"},
+                                        "vectors": [g[i]], "expected": wanti, "observed": str(o)[:400]})
                         o = outcome(history)
                         n += 1
                         wanth = [[_up(w)] for w in wv] + [[_up(w) for w in wv]] + [[_up(t)]]
